@@ -674,3 +674,16 @@ Proof.
   - apply exit_exact_g; assumption.
   - intros Hw. apply exit_rv_g; try assumption. eapply wants_rad_mr; eassumption.
 Qed.
+
+(** ---- the boolean legality test of observed pivots ---- *)
+Theorem legal_pivotsb_spec : S_legal_pivotsb_spec.
+Proof.
+  intros g comp k piv. unfold legal_pivotsb, legal_pivots.
+  rewrite andb_true_iff, Nat.eqb_eq, forallb_forall. split.
+  - intros [Hl H]. split; [exact Hl|]. intros c Hc.
+    specialize (H c (proj2 (in_seq _ _ _) (conj (Nat.le_0_l _) Hc))).
+    apply andb_true_iff in H. destruct H as [H1 H2]. apply Nat.ltb_lt in H1. apply Nat.eqb_eq in H2.
+    split; assumption.
+  - intros [Hl H]. split; [exact Hl|]. intros c Hc. apply in_seq in Hc. destruct (H c (proj2 Hc)) as [H1 H2].
+    apply andb_true_iff. split; [apply Nat.ltb_lt; exact H1 | apply Nat.eqb_eq; exact H2].
+Qed.
